@@ -118,6 +118,37 @@ class Package:
             raise AnalysisError(f"method {cls}.{meth} vanished", (ci.file, ci.node.lineno), MISSING)
         return ci.methods[meth]
 
+    def expanded(self, cls: str, meth: str, keep=()) -> ast.FunctionDef:
+        """A copy of method `cls.meth` with the helpers it was split into put back (normalize.expand_helpers): calls through
+        self/cls to methods of the class (MRO) and calls to functions of the same module.  `keep` names the callees a rule treats
+        as primitives (they stay calls); helpers that use super() stay calls too.  Rules that read a function's statements by
+        role see the same statements whether or not a block was extracted into a helper."""
+        import copy
+        from .normalize import expand_helpers
+        cache = self.__dict__.setdefault("_expanded", {})
+        key = (cls, meth, tuple(sorted(keep)))
+        if key not in cache:
+            fn = copy.deepcopy(self.method(cls, meth))
+            file = self.cls(cls).file
+            local_names = {n.id for n in ast.walk(fn) if isinstance(n, ast.Name) and isinstance(n.ctx, ast.Store)} | {a.arg for a in fn.args.args}
+
+            def usable(callee):
+                return callee is not None and not any(isinstance(n, ast.Name) and n.id == "super" for n in ast.walk(callee))
+
+            def resolve(call):
+                f = call.func
+                if isinstance(f, ast.Attribute) and isinstance(f.value, ast.Name) and f.value.id in ("self", "cls") and f.attr not in keep:
+                    _, callee = self.resolve(cls, f.attr)
+                    if usable(callee) and not any(ast.unparse(d) == "property" for d in callee.decorator_list):
+                        return callee, f.value
+                if isinstance(f, ast.Name) and f.id not in keep and f.id not in local_names and (file, f.id) in self.functions:
+                    callee = self.functions[(file, f.id)]
+                    if usable(callee):
+                        return callee, None
+                return None
+            cache[key] = expand_helpers(fn, resolve)
+        return cache[key]
+
     def subclasses(self, base: str) -> list:
         return [c for c in self.classes if base in self.mro(c)[1:]]
 
